@@ -490,6 +490,10 @@ type request struct {
 	cpeID     string
 	behaviour string // "", "reqblock", "respblock", "ratelimited"
 
+	// mapped: the (IPv4) client address arrives in its 16-octet form;
+	// remoteUDP: as a UDP address.
+	mapped, remoteUDP bool
+
 	// ecs is the client-subnet option the request carries ("" = none): what
 	// the client says about itself must not influence what it may do.
 	ecs string
@@ -1033,6 +1037,9 @@ func serve(w *world.World, r *request, id uint16) (out *world.Writer, err error)
 		Local:  r.local,
 		Remote: netip.AddrPortFrom(r.client, 40000),
 		Msg:    req,
+
+		MappedRemote: r.mapped,
+		RemoteUDP:    r.remoteUDP,
 	})
 }
 
@@ -1055,6 +1062,8 @@ func genRequest(t *kernel.Tape, u *universe, servers map[string]*agd.Server, kin
 	r.srvKind = kernel.Pick(t, kinds, "server")
 	r.srv = servers[r.srvKind]
 	r.client = netip.MustParseAddr(kernel.Pick(t, clientAddrs, "client"))
+	r.mapped = r.client.Is4() && t.Chance(1, 4, "client-address-in-16-octets")
+	r.remoteUDP = t.Chance(1, 3, "client-address-udp")
 	r.qtype = kernel.Pick(t, []uint16{dns.TypeA, dns.TypeA, dns.TypeAAAA, dns.TypeTXT, dns.TypeHTTPS}, "qtype")
 
 	// Names: unique per request, with a behaviour prefix or an access-rule
